@@ -120,6 +120,16 @@ def run_model_job(pid, job, tier, seed):
         p = dict(p)
         p["bounds"] = "%d roots (%s), depth %d (levels), is_legal sweep level %d, clock setters %s" % (len(roots), mc.get("roots", "curated"), cfgj["depth"], cfgj["sweep"], "on" if cfgj["setters"] else "off")
         job["params"][tier] = p
+    if "geom_mc" in p:
+        import random
+        rnd = random.Random(seed)
+        rook = list(range(64)) if p["geom_mc"]["rook"] >= 64 else sorted(rnd.sample(range(64), p["geom_mc"]["rook"]))
+        path = os.path.join(wd, "mccfg.json")
+        json.dump({"rook_squares": rook, "bishop_squares": list(range(64))}, open(path, "w"))
+        env["MCCFG"] = path
+        p = dict(p)
+        p["bounds"] = "every subset of the relevant mask for all 64 bishop squares and %d rook squares, three irrelevant fillings each" % len(rook)
+        job["params"][tier] = p
     if "parse_mc" in p:
         pm = p["parse_mc"]
         roots = root_records("curated", seed, pm.get("bases", 2))
